@@ -150,6 +150,20 @@ def one(cases, rng, tier, d, rep, dtname):
             for o in ops2:
                 toks += tt_tokens(o)
             cases.append(Case(J("cat", toks), impl, chk_tt(box, lambda dens2=dens2, dim=dim: tn.cat(dens2, dim), dt, Rc, Nc), "cat/same-object-%s/dim%d/%s" % (pat, dim, tag), True))
+    # --- cat of operands with DIFFERENT dtypes (narrower one first / last): torch.cat promotes, no entry may lose its imaginary part or precision
+    other_dt = {tn.float64: tn.complex128, tn.float32: tn.float64, tn.complex128: tn.float64, tn.complex64: tn.complex128}.get(dt)
+    if other_dt is not None:
+        dim = rng.randrange(d)
+        Ny = list(N); Ny[dim] = rng.randint(1, 3)
+        ym = rand_tt(rng, Ny, rand_ranks(rng, d, 2), other_dt)
+        dym = dense_of(ym)
+        wide = tn.promote_types(dt, other_dt)
+        for pat, ops3, dens3 in (("xy", [x, ym], [dx, dym]), ("yx", [ym, x], [dym, dx])):
+            box, impl = boxed(lambda ops3=ops3, dim=dim: torchtt.cat(tuple(ops3), dim))
+            Nc = list(N); Nc[dim] = sum(o.N[dim] for o in ops3)
+            Rc = [1] + [sum(o.R[i] for o in ops3) for i in range(1, d)] + [1]
+            cases.append(Case(None, impl, chk_tt(box, lambda dens3=dens3, dim=dim, wide=wide: tn.cat([a.to(wide) for a in dens3], dim), wide, Rc, Nc),
+                              "cat/mixed-dtype-%s/dim%d/%s" % (pat, dim, tag), True, desc="cat of %s and %s operands" % (dt, other_dt)))
     # --- pad, tensor branch: every trailing subset, widths incl. 0, fill 0 / non-zero
     for npad in range(1, d + 1):
         if tier == "quick" and rng.random() < 0.3 and npad not in (1, d):
@@ -229,6 +243,17 @@ def run(res, rng, tier, known):
         for rep in range(reps):
             one(cases, rng, tier, d, rep, dts[ci % 3]); ci += 1
     rng.shuffle(cases)
+    # --- dtype of cat on all ordered dtype pairs (and a quarter of the triples), tied to DType.promoteAll (theorems TT.C03d)
+    from util import dtype_cases
+
+    def catN(rng_, d, n):
+        base = [rng_.randint(1, 3) for _ in range(d)]
+        out = []
+        for _ in range(n):
+            Ni = list(base); Ni[0] = rng_.randint(1, 3)
+            out.append(Ni)
+        return out
+    cases += dtype_cases(rng, [("cat", lambda xs: torchtt.cat(tuple(xs), 0), lambda ds: tn.cat(ds, 0), catN)], "cat", nops=(2, 3))
     run_cases(res, cases, known)
     return {"level": LEVEL, "rule": RULE, "assumptions": ASSUMPTIONS,
             "not_by_theorem": ["dtype preservation", "operator padding (model + correspondence + oracle only)"]}
